@@ -983,7 +983,8 @@ class EnumConverter(Converter[enum.Enum]):
     def into_data(self, val: t.Any) -> DataType:
         """See [`Converter.into_data`][pane.converters.Converter.into_data]"""
         if isinstance(val, self.ty):
-            return val.value  # guaranteed to be data-interchange type
+            # (through the converter which reads the values: custom handlers for their types apply in both directions)
+            return self.inner_conv.into_data(val.value)
         return into_data(val)
 
     def expected(self, plural: bool = False) -> str:
